@@ -202,6 +202,10 @@ class AbsoluteSequence(AbstractSequence):
         if step_sizes is None:
             step_sizes = get_default_step_sizes()
 
+        # Messages of one tick may have been entered in any order; the bookkeeping below needs a note's note-off before the
+        # note-on of the next note of its channel and pitch
+        self.normalise_absolute()
+
         # List of finally quantised messages
         quantised_messages = []
         # Keep track of open messages, in order to guarantee quantisation does not smother them
